@@ -148,6 +148,30 @@ def run_c06(rep, tier, seed):
             impl_lines.append(f"c.close {cid}")
             cases.append(("pipeline", start, len(impl_lines) - start, len(model_lines), reqs, expected))
             model_lines.append(f"serve {data.hex()}")
+    # value lengths around every power of ten up to a million, and a DEL naming 100 / 101 present keys: every decimal a reply
+    # can carry as a length or a count with 1..7 digits and a carry in it
+    lens = sorted(set(list(range(0, 130)) + [x + d for x in (1000, 10000, 100000, 1000000) for d in range(-3, 102 if tier != "quick" or x <= 10000 else 4)] + [65535, 65536, 99, 999, 9999]))
+    cid = "len"
+    st_len = len(impl_lines)
+    impl_lines.append(f"c.open {cid}")
+    len_checks = []
+    for L in lens:
+        b = rng.getrandbits(8)
+        impl_lines.append(f"c.sendbig {cid} 6c {b:02x} {L}")
+        impl_lines.append(f"c.read {cid} 1 30000")
+        len_checks.append((len(impl_lines) - 1, "S:4f4b", f"SET of a {L}-byte value"))
+        impl_lines.append(f"c.send {cid} {req_bytes(('GET', b'l')).hex()}")
+        impl_lines.append(f"c.read {cid} 1 30000")
+        len_checks.append((len(impl_lines) - 1, "B:" + show_val(bytes([b]) * L), f"GET of a {L}-byte value"))
+    for nk in (100, 101, 10):
+        ks_ = [b"d%03d" % i for i in range(nk)]
+        for k in ks_:
+            impl_lines.append(f"c.send {cid} {req_bytes(('SET', k, b'1')).hex()}")
+            impl_lines.append(f"c.read {cid} 1 8000")
+        impl_lines.append(f"c.send {cid} {req_bytes(('DEL', ks_)).hex()}")
+        impl_lines.append(f"c.read {cid} 1 8000")
+        len_checks.append((len(impl_lines) - 1, f"I:{nk}", f"DEL naming {nk} present keys"))
+    impl_lines.append(f"c.close {cid}")
     # the client library (net/client.rs) against a scripted one-shot server: what Client::{get,set,del} send and what they
     # return for the reply the map model gives, for error replies, for replies of the wrong kind, for truncated replies and
     # for end of stream — compared with the Lean client model (Resp/Client.lean, `cl.call` in the driver)
@@ -270,6 +294,12 @@ def run_c06(rep, tier, seed):
                 viol("oracle", "replies on a pipelined connection differ from the key-value map's", impl_lines[st:st + n], ";".join(exp), ";".join(got))
             elif mout[0] != hx(expected):
                 viol("correspondence", "model and server disagree on the reply stream", impl_lines[st:st + n], hx(expected), model[mi])
+    for (li, exp, what) in len_checks:
+        if li < len(impl):
+            rep.count("length_sweep_replies")
+            if impl[li] != exp:
+                viol("oracle", f"{what}: the reply is not the one the key-value map gives (a length or count is mis-encoded)",
+                     [x[:120] for x in impl_lines[li - 3:li + 1]], exp[:200], impl[li][:200])
     for (st_, ngets, tok) in big_checks:
         if st_ + 5 < len(impl):
             rep.count("large_reply_cases")
@@ -289,7 +319,7 @@ def run_c06(rep, tier, seed):
     rep.cov["rule"] = ("request scripts of 1..9 SET/GET/DEL (keys: UTF-8 incl. empty, multi-byte, 40 bytes; values: arbitrary bytes incl. CR/LF/NUL, 8191..20000 bytes; DEL with 1..5 keys and duplicates) "
                        "sent to the real server over loopback either on a fresh connection cut into segments (all-at-once / byte-at-a-time / every single cut / random; 0-3 ms between segments; "
                        "everything sent before any reply is read) or on a persistent connection with pipelining depth 1/2/4/all; reply bytes compared with a python map and the Lean handler model; "
-                       "final store contents read through a direct handle; non-trivial = distinct case")
+                       "final store contents read through a direct handle; a sweep of value lengths 0..129 and -3..+101 around 1000 / 10^4 / 10^5 / 10^6 (SET then GET, the reply compared whole) and DELs naming 100 / 101 / 10 present keys; non-trivial = distinct case")
     for (kind, st, n, mi, reqs, expected) in cases[:3]:
         rep.sample({"requests": [r[0] for r in reqs], "impl_lines": [l[:160] for l in impl_lines[st:st + n]][:6], "impl": [a[:160] for a in impl[st:st + n]][:6]})
 
@@ -489,6 +519,22 @@ def run_c10(rep, tier, seed):
                 exp[len(sc) - 1] = "nil"
                 sc += ["srv.stop"]
                 conn_scen.append((f"max_connections={mx}: {nhost} client(s) connect while all slots are taken, " + ("send a truncated SET, " if payload != "-" else "") + "and reset the connection while still queued; then a slot frees", sc, exp))
+    # peers that connect and then say nothing (and keep their sockets open) must not hold up anybody who connects after them
+    for nsilent in (1, 3):
+        sc = ["srv.start max=8 mfs=300", "c.open ctl", f"c.send ctl {SETk}", "c.read ctl 1 8000"]
+        exp = {3: "S:4f4b"}
+        for i in range(nsilent):
+            sc += [f"c.open q{i}"]
+        sc += ["sleep 100"]
+        for i in range(3):
+            sc += [f"c.open n{i}", f"c.send n{i} {GETk}", f"c.read n{i} 1 8000"]
+            exp[len(sc) - 1] = "B:6376"
+        sc += [f"c.send ctl {GETk}", "c.read ctl 1 8000"]
+        exp[len(sc) - 1] = "B:6376"
+        sc += ["srv.alive"]
+        exp[len(sc) - 1] = "alive"
+        sc += ["srv.stop"]
+        conn_scen.append((f"{nsilent} peer(s) connect, send nothing and keep the connection open; three clients connect after them", sc, exp))
     # resets on connections that are being served: after a request whose reply is never read, and in mid-frame
     sc = ["srv.start max=4 mfs=300", "c.open ctl", f"c.send ctl {SETk}", "c.read ctl 1 8000"]
     exp = {3: "S:4f4b"}
@@ -545,7 +591,7 @@ def run_c10(rep, tier, seed):
                        "19-20 digit and negative lengths, nesting depth 33 and 200000, valid commands followed by garbage, random mutations of valid requests), each on its own connection, "
                        "interleaved with SET/GET/DEL on one persistent well-behaved connection; checked: process and run loop alive, control replies and final store = Lean handler model "
                        "(which applies exactly the well-formed commands before the first error), hostile connection closed; plus connection-level misbehaviour: clients that reset (RST) their connection while queued behind the "
-                       "connection limit (with and without a truncated SET sent), and served connections reset with replies in flight or in mid-frame, at max_connections 1/2/3/4: the server keeps running, the other connections and a new one are answered, nothing is stored; "
+                       "connection limit (with and without a truncated SET sent), served connections reset with replies in flight or in mid-frame, and peers that connect and stay silent, at max_connections 1/2/3/4/8: the server keeps running, the other connections and a new one are answered, nothing is stored; "
                        "non-trivial = distinct hostile stream or scenario") % len(hostile)
     for (kind, ii, mi, info) in [s for s in steps if s[0] == "hostile"][:4]:
         rep.sample({"hostile": info[0], "bytes_hex": info[1][:40].hex(), "server": impl[ii][:80] if ii < len(impl) else None, "model": model[mi][:80]})
@@ -1074,6 +1120,11 @@ def run_c11(rep, tier, seed):
           "c.send b " + req_bytes(("SET", b"k", b"w")).hex(), "kv.merge.bg", "sleep 400", "np.release", "c.read a 1 5000", "c.read b 1 5000", "kv.merge.join 5000",
           f"c.send b {GETk}", "c.read b 1 5000"],
          lambda a: (a[7] == "parked get.lookup" and a[12] in ("B:76", "B:77") and a[13] == "S:4f4b" and a[14] == "done ok" and a[16] == "B:77", "GET -> v or w (never an error / dropped connection), SET -> +OK, merge ok, GET -> w")))
+    forced.append(
+        ("a client's SET has appended but not yet published when a full merge pass (which selects every file, the active one included) is requested; afterwards three clients read the key",
+         ["c.open a", "c.open b", "c.open c", f"c.send a {SETk}", "c.read a 1 5000", "np.park put.before_publish 1", "c.send a " + req_bytes(("SET", b"k", b"w")).hex(), "np.wait 5000",
+          "kv.merge.bg", "sleep 400", "np.release", "c.read a 1 5000", "kv.merge.join 5000", f"c.send b {GETk}", "c.read b 1 5000", f"c.send c {GETk}", "c.read c 1 5000", f"c.send a {GETk}", "c.read a 1 5000"],
+         lambda a: (a[7] == "parked put.before_publish" and a[11] == "S:4f4b" and a[12] == "done ok" and a[14] == "B:77" and a[16] == "B:77" and a[18] == "B:77", "SET -> +OK, merge ok, then every GET -> w")))
     ks = [f"6d{i:02x}" for i in range(8)]
     sets = []
     for i, k in enumerate(ks):
